@@ -47,6 +47,17 @@ def bufOp (toks : List String) : Option String :=
       let a ← parseBuf a; let h ← bytesOfHex b
       pure (showPy (fun (r : Bool) => s!"{r}") (do let a ← a; pure (a.eqBytes h)))
     else none
+  | ["hashset", b, s, e, v] => do
+    -- hash, slice-assign, hash again: the key after the assignment is that of a freshly built equal buffer
+    let b ← parseBuf b; let s ← s.toNat?; let e ← e.toNat?; let v ← parseBuf v
+    pure (showPy (fun (x : Bool × Bool) => s!"{x.1} {x.2}") (do
+      let b ← b; let v ← v
+      let _ ← b.hashKey
+      let b' ← b.setRange s e v
+      let fresh ← Buf.new b'.content b'.length b'.padding
+      let (k1, _) ← b'.hashKey; let (k2, _) ← fresh.hashKey
+      let (e1, _) ← Buf.eq b' fresh
+      pure (e1, k1 == k2)))
   | ["invert", b] => do
     let b ← parseBuf b
     pure (showPy showBuf (b >>= Buf.invert))
